@@ -124,6 +124,21 @@ fn apply_model(model: &mut Cache, t: &mut u64, op: &Op) -> Outcome {
     }
 }
 
+/// Does what the shared cache did agree with what the sequential model does at this
+/// point?  Exactly, except that the shared cache may have dropped records that had
+/// already expired before this prune got to them (when expired records physically
+/// vanish is not specified): then it reports fewer expired ones - and, counting
+/// them no longer, may not see itself over size - while the records remaining and
+/// the live records evicted must be the same.
+fn agrees(model: &Outcome, real: &Outcome) -> bool {
+    match (model, real) {
+        (Outcome::Pruned(mo, ms, me, mv), Outcome::Pruned(ro, rs, re, rv)) => {
+            ms == rs && mv == rv && re <= me && (mo == ro || re < me)
+        }
+        _ => model == real,
+    }
+}
+
 /// WGL-style search for a linearization of `events`.
 fn linearizable(events: &[Event], desired_size: usize) -> bool {
     fn go(events: &[Event], done: &mut Vec<bool>, model: &Cache, t: u64, left: usize, budget: &mut u64) -> bool {
@@ -153,7 +168,7 @@ fn linearizable(events: &[Event], desired_size: usize) -> bool {
             // those reads are the search's, not a spin of the code under test
             simseam::clock::forgive_reads();
             let out = apply_model(&mut m, &mut t2, &events[i].op);
-            if out == events[i].outcome {
+            if agrees(&out, &events[i].outcome) {
                 done[i] = true;
                 if go(events, done, &m, t2, left - 1, budget) {
                     return true;
